@@ -280,10 +280,7 @@ func TestC07Tunnel(t *testing.T) {
 			}
 		}
 		entry := cl.Nodes[c.Pick("entry", 2)]
-		if !Eventually(Deadline(), func() bool {
-			n, ok := cl.Nodes[1].Srv.ClusterState().Node("n0")
-			return ok && n.Endpoints["t1"] == 1
-		}) {
+		if !WaitRoutable(cl.Nodes[1], cl.Nodes[0], "t1", Deadline()) {
 			c.Fatalf("C07: endpoint did not propagate")
 		}
 		via := c.OneOf("client", "dialer", "forwarder")
@@ -297,6 +294,14 @@ func TestC07Tunnel(t *testing.T) {
 			ctx, cancel := context.WithTimeout(context.Background(), Deadline())
 			conn, err = (&client.Dialer{URL: pu}).Dial(ctx, "t1")
 			cancel()
+			if err != nil && IsGatewayRefusal(err) && entry != cl.Nodes[0] {
+				// a starved machine can make the entry node suspect its peer for a moment: confirm
+				c.Class("timing-retry")
+				WaitRoutable(entry, cl.Nodes[0], "t1", Deadline())
+				ctx, cancel := context.WithTimeout(context.Background(), Deadline())
+				conn, err = (&client.Dialer{URL: pu}).Dial(ctx, "t1")
+				cancel()
+			}
 			if err != nil {
 				c.Fatalf("C07: dial through %s failed: %v", entry.ID, err)
 			}
